@@ -718,6 +718,72 @@ func (p *Prog) constStructTableGeneric(g *ssa.Global, f int, val func(ssa.Value)
 	if !isP {
 		return 0, 0, false
 	}
+	if at, isArr := pt.Elem().Underlying().(*types.Array); isArr {
+		// a package-level array of structs (`var marks = [...]struct{pos int; …}{…}`) that nothing outside init
+		// writes: the stores init makes through &g[k].f
+		if !p.initOnlyGlobal(g) {
+			return 0, 0, false
+		}
+		lo, hi = math.Inf(1), math.Inf(-1)
+		seen := map[int64]bool{}
+		for _, fn := range p.AllFuncs() {
+			if fn.Name() != "init" || fn.Parent() != nil {
+				continue
+			}
+			for _, b := range fn.Blocks {
+				for _, ins := range b.Instrs {
+					if st, isSt := ins.(*ssa.Store); isSt && st.Addr == ssa.Value(g) {
+						return 0, 0, false // whole-array store: not followed
+					}
+					ia, isIA := ins.(*ssa.IndexAddr)
+					if !isIA || ia.X != ssa.Value(g) {
+						continue
+					}
+					k, isC := constInt(ia.Index)
+					if !isC || ia.Referrers() == nil {
+						return 0, 0, false
+					}
+					for _, r2 := range *ia.Referrers() {
+						switch y := r2.(type) {
+						case *ssa.DebugRef:
+						case *ssa.FieldAddr:
+							if y.Referrers() == nil {
+								continue
+							}
+							for _, r3 := range *y.Referrers() {
+								st, isSt := r3.(*ssa.Store)
+								if !isSt || st.Addr != ssa.Value(y) {
+									return 0, 0, false
+								}
+								if y.Field != f {
+									continue
+								}
+								cv, isK := val(st.Val)
+								if !isK {
+									return 0, 0, false
+								}
+								seen[k] = true
+								lo, hi = math.Min(lo, cv), math.Max(hi, cv)
+							}
+						default:
+							return 0, 0, false
+						}
+					}
+				}
+			}
+		}
+		if int64(len(seen)) < at.Len() {
+			if full {
+				return 0, 0, false
+			}
+			lo, hi = math.Min(lo, 0), math.Max(hi, 0)
+		}
+		if math.IsInf(lo, 0) || math.IsInf(hi, 0) {
+			return 0, 0, false
+		}
+		p.cache[key] = res{lo, hi, true}
+		return lo, hi, true
+	}
 	if _, isS := pt.Elem().Underlying().(*types.Slice); !isS {
 		return 0, 0, false
 	}
@@ -889,6 +955,9 @@ func (pr *Prover) tableGlobalsOf(fa *ssa.FieldAddr) []*ssa.Global {
 		if !ok {
 			return nil
 		}
+		if g, isG := ia.X.(*ssa.Global); isG {
+			return []*ssa.Global{g} // a package-level array, indexed in place
+		}
 		return globalsOfSlice(ia.X)
 	}
 	var gs []*ssa.Global
@@ -901,6 +970,16 @@ func (pr *Prover) tableGlobalsOf(fa *ssa.FieldAddr) []*ssa.Global {
 				st, ok := r.(*ssa.Store)
 				if !ok || st.Addr != ssa.Value(x) {
 					continue
+				}
+				if ix, isIx := st.Val.(*ssa.Index); isIx {
+					// ranging over a package-level array by value: t = *g; e = t[i]
+					if l, isL := ix.X.(*ssa.UnOp); isL && l.Op == token.MUL {
+						if g, isG := l.X.(*ssa.Global); isG {
+							gs = append(gs, g)
+							continue
+						}
+					}
+					return nil
 				}
 				el, ok := st.Val.(*ssa.UnOp)
 				if !ok || el.Op != token.MUL || len(globalsOf(el.X)) == 0 {
